@@ -16,16 +16,18 @@ grep -qi "anemo-tower/tests" $OUT/demo/README.md 2>/dev/null && DEST=crates/anem
 grep -qi "anemo-build/tests" $OUT/demo/README.md 2>/dev/null && DEST=crates/anemo-build/tests
 mkdir -p $DEST; cp $DEMO $DEST/seeded_demo.rs
 PKG=$(echo $DEST | cut -d/ -f2)
+DEMOFLAGS=""
+grep -q "bmwill_anemo_verif" $OUT/demo/README.md $DEMO 2>/dev/null && DEMOFLAGS="--cfg bmwill_anemo_verif"
 LOG=$OUT/confirm.log; : > $LOG
 echo "== without change: demo" >> $LOG
-cargo test -p $PKG --offline --test seeded_demo >> $LOG 2>&1; A=$?
+RUSTFLAGS="$DEMOFLAGS" cargo test -p $PKG --offline --test seeded_demo >> $LOG 2>&1; A=$?
 git apply $OUT/patch.diff || { echo "PATCH DOES NOT APPLY" >> $LOG; exit 2; }
 echo "== with change: existing suite" >> $LOG
 rm -f $DEST/seeded_demo.rs
 cargo nextest run --workspace --no-fail-fast --offline --test-threads 8 >> $LOG 2>&1; B=$?
 cp $DEMO $DEST/seeded_demo.rs
 echo "== with change: demo" >> $LOG
-cargo test -p $PKG --offline --test seeded_demo >> $LOG 2>&1; C=$?
+RUSTFLAGS="$DEMOFLAGS" cargo test -p $PKG --offline --test seeded_demo >> $LOG 2>&1; C=$?
 git checkout -q -- crates; rm -rf $DEST/seeded_demo.rs
 echo "RESULT id=$ID demo_without_change_exit=$A suite_with_change_exit=$B demo_with_change_exit=$C" | tee -a $LOG
 rm -rf $WT/target
